@@ -93,6 +93,17 @@ def forkrun(fn, *args, timeout: float = 120.0, **kwargs):
     return val
 
 
+def _stable(obj) -> str:
+    """repr with dict keys sorted (set/dict iteration order must not matter for the fingerprint)."""
+    if isinstance(obj, dict):
+        return "{" + ",".join(f"{_stable(k)}:{_stable(v)}" for k, v in sorted(obj.items(), key=lambda kv: repr(kv[0]))) + "}"
+    if isinstance(obj, (list, tuple)):
+        return "[" + ",".join(_stable(x) for x in obj) + "]"
+    if isinstance(obj, (set, frozenset)):
+        return "{" + ",".join(sorted(_stable(x) for x in obj)) + "}"
+    return repr(obj)
+
+
 def _shard_call(packed):
     fn, item = packed
     try:
@@ -123,6 +134,18 @@ def pmap(fn, items, workers: int | None = None, wall_cap: float | None = None, o
     results = [("skipped", None)] * len(items)
     if not items:
         return results
+    fp_file = os.environ.get("SIMKIT_FP_FILE")
+    if fp_file:
+        user_cb = on_result
+
+        def on_result(i, r, _cb=user_cb):  # noqa: F811 - determinism self-test: fingerprint of every item result
+            import hashlib, json as _json
+
+            with open(fp_file, "a") as f:
+                f.write(_json.dumps({"fn": getattr(fn, "__name__", "?"), "i": i, "status": r[0],
+                                     "fp": hashlib.sha256(_stable(r[1]).encode()).hexdigest()[:20]}) + "\n")
+            if _cb:
+                _cb(i, r)
     t0 = time.monotonic()
     if workers == 1:
         for i, it in enumerate(items):
